@@ -124,6 +124,7 @@ type stWorld struct {
 	nconn      int
 	captureOff int64
 	ingestDone bool
+	covertPlan func(S *simnet.Conn) // optional: fault plan for covert connections
 }
 
 func stDefaultOpts() stOpts {
@@ -302,6 +303,9 @@ func (w *stWorld) dial(network, addr string) (net.Conn, error) {
 	name := fmt.Sprintf("covert%d", n)
 	S, H := simnet.Pipe(w.r, "st."+name, name, simnet.TCP("10.9.8.7", 40000+n), caddr)
 	S.Sched, H.Sched = true, true
+	if w.covertPlan != nil {
+		w.covertPlan(S)
+	}
 	cv := &stCovert{addr: addr, H: H, S: S}
 	w.mu.Lock()
 	w.coverts = append(w.coverts, cv)
@@ -575,6 +579,11 @@ type stConn struct {
 // open creates a client connection to a phantom and starts the station's
 // handler for it (what handleNewConn does after reading the original destination).
 func (w *stWorld) open(phantom net.IP, cliAddr *net.TCPAddr) *stConn {
+	return w.openWith(phantom, cliAddr, nil)
+}
+
+// openWith lets the caller prepare the station end (fault plan) before the handler starts.
+func (w *stWorld) openWith(phantom net.IP, cliAddr *net.TCPAddr, prep func(S *simnet.Conn)) *stConn {
 	w.mu.Lock()
 	n := w.nconn
 	w.nconn++
@@ -582,6 +591,9 @@ func (w *stWorld) open(phantom net.IP, cliAddr *net.TCPAddr) *stConn {
 	name := fmt.Sprintf("conn%d", n)
 	H, S := simnet.Pipe(w.r, name+".client", name+".station", cliAddr, &net.TCPAddr{IP: phantom, Port: 443})
 	H.Sched, S.Sched = true, true
+	if prep != nil {
+		prep(S)
+	}
 	c := &stConn{name: name, phantom: phantom, H: H, S: S, start: w.r.Elapsed(), task: name + ".handler"}
 	w.mu.Lock()
 	w.conns = append(w.conns, c)
